@@ -42,15 +42,25 @@ def log(*a):
 # --------------------------------------------------------------------------------------
 
 class LakeLock:
+    """exclusive lock on the Lean project (re-entrant within the process): generation of Gen/ and the builds of one check
+    form one critical section, because every check regenerates Gen/ for its own fragments"""
+    depth = 0
+    f = None
+
     def __enter__(self):
-        os.makedirs(os.path.join(LEAN, ".lake"), exist_ok=True)
-        self.f = open(os.path.join(LEAN, ".lake", "verif.lock"), "w")
-        fcntl.flock(self.f, fcntl.LOCK_EX)
+        if LakeLock.depth == 0:
+            os.makedirs(os.path.join(LEAN, ".lake"), exist_ok=True)
+            LakeLock.f = open(os.path.join(LEAN, ".lake", "verif.lock"), "w")
+            fcntl.flock(LakeLock.f, fcntl.LOCK_EX)
+        LakeLock.depth += 1
         return self
 
     def __exit__(self, *a):
-        fcntl.flock(self.f, fcntl.LOCK_UN)
-        self.f.close()
+        LakeLock.depth -= 1
+        if LakeLock.depth == 0:
+            fcntl.flock(LakeLock.f, fcntl.LOCK_UN)
+            LakeLock.f.close()
+            LakeLock.f = None
 
 
 def lake(args, timeout=3000):
